@@ -7,6 +7,7 @@ import (
 	"github.com/gregoryv/mq"
 
 	"verif/internal/bind"
+	"verif/internal/gen"
 	"verif/internal/mon"
 	"verif/internal/ref"
 	"verif/internal/run"
@@ -20,7 +21,7 @@ func init() { register(c04{}) }
 func (c04) ID() string    { return "C04" }
 func (c04) Level() string { return "exploration" }
 func (c04) Rule() string {
-	return "hostile byte strings (arbitrary bytes; valid header + random/plausible/mutated body for all 16 type nibbles; every prefix of valid frames, raw and re-framed; every length field raised/lowered/zeroed/maximised/overlong; every type nibble spliced onto every body; truncated and inconsistent repeated sections) are fed to ReadPacket and their bodies to UnmarshalBinary of the matching type (and of all 16 Go packet types for one input in eight) on zero, NewX() and reused receivers, under a panic guard and the result-pair invariant. distinct = hash(api, input bytes); non-trivial = the type's decoder was entered (complete body of non-zero length)"
+	return "hostile byte strings (arbitrary bytes; valid header + random/plausible/mutated body for all 16 type nibbles; every prefix of valid frames, raw and re-framed; every length field raised/lowered/zeroed/maximised/overlong; every type nibble spliced onto every body; truncated and inconsistent repeated sections; properties written twice, the copy with the same, a zero-length or a zero value; one packet value reused for a frame with text in every string and then one with the same strings empty) are fed to ReadPacket and their bodies to UnmarshalBinary of the matching type (and of all 16 Go packet types for one input in eight) on zero, NewX() and reused receivers, under a panic guard and the result-pair invariant. distinct = hash(api, input bytes); non-trivial = the type's decoder was entered (complete body of non-zero length)"
 }
 func (c04) Assumptions() []string {
 	return []string{"readers obey the io.Reader contract", "a typed-nil pointer is not a packet"}
@@ -51,6 +52,40 @@ func (c04) Run(c *run.Ctx, phase, idx int) {
 			}
 		}
 	})
+	if phase == hLists {
+		// one packet value reused for two frames of its type: the first with
+		// text in every string it carries, the second with the same fields
+		// present but empty (and the other way round)
+		r := rng(c.Env, "C04reuse", phase, idx)
+		t := gen.AllTypes[idx%len(gen.AllTypes)]
+		full := gen.Packet(r, t, gen.RandomMask(r, t)|uint64(r.Uint64()), gen.Small, wfDomain)
+		empty := full.Clone()
+		blank := func(ps []ref.Prop) {
+			for i := range ps {
+				ps[i].S, ps[i].V, ps[i].B = "", "", nil
+			}
+		}
+		blank(empty.Props)
+		blank(empty.WillProps)
+		empty.ClientID, empty.Topic, empty.WillTopic, empty.Username = "", "", "", ""
+		empty.Password, empty.WillPayload, empty.Payload = nil, nil, nil
+		for i := range empty.Subs {
+			empty.Subs[i].Filter = ""
+		}
+		for i := range empty.Unsubs {
+			empty.Unsubs[i] = ""
+		}
+		f1, _ := ref.Encode(full)
+		f2, _ := ref.Encode(empty)
+		h1, _ := ref.ParseHeader(f1)
+		h2, _ := ref.ParseHeader(f2)
+		for _, order := range [][2][]byte{{f1[h1.HdrLen:], f2[h2.HdrLen:]}, {f2[h2.HdrLen:], f1[h1.HdrLen:]}} {
+			var one [16]mq.Packet
+			c04Unmarshal(c, "reuse-full-then-empty", t, 0, order[0], &one)
+			c04Unmarshal(c, "reuse-full-then-empty", t, 2, order[1], &one)
+			c04Unmarshal(c, "reuse-full-then-empty", t, 2, order[0], &one)
+		}
+	}
 	if idx == 0 && phase == 0 { // the degenerate inputs, once
 		for t := 0; t < 16; t++ {
 			for rk := 0; rk < 3; rk++ {
